@@ -47,6 +47,7 @@ type Clause struct {
 	Assigns []ast.Expr
 	Nothing bool
 	Like    *ast.CallExpr // like: callee contract instantiated with these arguments
+	NoResult bool
 }
 
 type Contract struct {
@@ -336,6 +337,11 @@ func parseClause(c *Contract, t string, line int) error {
 		// like[tags] Callee(args...) when cond
 		tags, body := parseTags(rest)
 		cond := "true"
+		noresult := false
+		if i := indexTopStr(body, " noresult"); i >= 0 {
+			noresult = true
+			body = body[:i] + body[i+len(" noresult"):]
+		}
 		if i := indexTopStr(body, " when "); i >= 0 {
 			cond = strings.TrimSpace(body[i+6:])
 			body = strings.TrimSpace(body[:i])
@@ -352,7 +358,7 @@ func parseClause(c *Contract, t string, line int) error {
 		if err != nil {
 			return fmt.Errorf("like: %v", err)
 		}
-		c.Clauses = append(c.Clauses, &Clause{Kind: "like", Tags: tags, Text: rest, Expr: ccond, Like: call, Line: line})
+		c.Clauses = append(c.Clauses, &Clause{Kind: "like", Tags: tags, Text: rest, Expr: ccond, Like: call, Line: line, NoResult: noresult})
 	case "let":
 		i := strings.Index(rest, ":=")
 		if i < 0 {
